@@ -17,6 +17,7 @@ import (
 	"fmt"
 	"os"
 	"path/filepath"
+	"runtime/debug"
 	"sort"
 	"strconv"
 	"strings"
@@ -243,8 +244,7 @@ func TestVerif(t *testing.T) {
 				if r := recover(); r != nil {
 					c.violation("HARNESS", fmt.Sprintf("suite panicked: %v", r), nil)
 					c.close(nil)
-					t.Errorf("suite %s panicked: %v", name, r)
-					panic(r)
+					t.Errorf("suite %s panicked: %v\n%s", name, r, debug.Stack())
 				}
 			}()
 			f(c)
